@@ -401,3 +401,82 @@ pub fn record(a: &Args) -> Report {
   f.flush().unwrap();
   rep
 }
+
+// ---------------------------------------------------------------------------
+/// `vh srv-alltags --seed S` (C14): the answer/puncture rule instantiated for EVERY tag of the
+/// 8-bit universe: a server registered for all 256 tags (and one registered for the even tags)
+/// answers exactly the registered, unpunctured tags; puncturing tag t changes nothing for any
+/// other tag (in particular t^1, t+1, t-1, t^128), for the public key, or for a clone taken before.
+pub fn alltags(a: &Args) -> Report {
+  let mut rep = Report::new("srv-alltags");
+  let seed = a.u64("seed", 1);
+  let mut rng = rng_from(seed, 1414);
+  let pt = Client::blind(b"all tags").0;
+  for (name, tags) in [("all", (0..=255u8).collect::<Vec<u8>>()), ("even", (0..=255u8).filter(|t| t % 2 == 0).collect())] {
+    let mut s = match Server::new(tags.clone()) {
+      Ok(s) => s,
+      Err(_) => {
+        rep.violation("C14", "Server::new", "alltags:new-failed", "Server::new failed".into(), json!({"tags": name}));
+        continue;
+      }
+    };
+    let pk0 = s.get_public_key().serialize_to_bincode().unwrap_or_default();
+    let before = s.clone();
+    let val = |srv: &Server, md: u8| -> Option<Vec<u8>> {
+      match guard(|| srv.eval(&pt, md, false)) {
+        Guard::Done(Ok(ev)) => Some(ev.output.as_bytes().to_vec()),
+        _ => None,
+      }
+    };
+    let fresh: Vec<Option<Vec<u8>>> = (0..=255u8).map(|md| val(&s, md)).collect();
+    for md in 0..=255u8 {
+      rep.evaluations += 1;
+      if fresh[md as usize].is_some() != tags.contains(&md) {
+        rep.violation("C14", "Server::eval", "alltags:registration",
+          format!("tag {md}: registered={} but answered={}", tags.contains(&md), fresh[md as usize].is_some()), json!({"tags": name, "tag": md}));
+      }
+    }
+    let mut order: Vec<u8> = (0..=255u8).collect();
+    use rand::seq::SliceRandom;
+    order.shuffle(&mut rng);
+    let mut punct: std::collections::BTreeSet<u8> = std::collections::BTreeSet::new();
+    for md in order {
+      let r = guard(|| s.puncture(md));
+      rep.evaluations += 1;
+      if !matches!(r, Guard::Done(Ok(()))) {
+        rep.violation("C14", "Server::puncture", "alltags:puncture-refused",
+          format!("puncture({md}) refused after {} punctures", punct.len()), json!({"tags": name, "tag": md, "punctured_before": punct.len()}));
+        continue;
+      }
+      punct.insert(md);
+      rep.nontrivial(format!("{name}:{md}"));
+      // the punctured tag is dead; its relatives and a few others keep their original answers
+      for other in [md, md ^ 1, md.wrapping_add(1), md.wrapping_sub(1), md ^ 128, md ^ 64, 0, 255] {
+        rep.evaluations += 1;
+        let now = val(&s, other);
+        let want = if punct.contains(&other) { None } else { fresh[other as usize].clone() };
+        if now != want {
+          rep.violation("C14", "Server::eval", if want.is_none() { "alltags:punctured-tag-answers" } else { "alltags:other-tag-affected" },
+            format!("after puncturing {md} ({} punctures so far) tag {other}: expected answer={}, got answer={}, same value={}",
+              punct.len(), want.is_some(), now.is_some(), now == want),
+            json!({"tags": name, "punctured": md, "tag": other, "count": punct.len()}));
+        }
+      }
+      if punct.len() % 32 == 0 {
+        let pk = s.get_public_key().serialize_to_bincode().unwrap_or_default();
+        if pk != pk0 {
+          rep.violation("C14", "Server::get_public_key", "alltags:public-key-changed", "public key changed by punctures".into(), json!({"tags": name}));
+        }
+        // the clone taken before any puncture still answers everything it answered
+        for other in [md, 0u8, 255] {
+          if val(&before, other) != fresh[other as usize] {
+            rep.violation("C14", "Server::clone", "alltags:clone-affected", "a clone taken before the punctures was affected".into(), json!({"tags": name, "tag": other}));
+          }
+        }
+      }
+    }
+    rep.traces += 1;
+    rep.sample(json!({"registered": name, "tags_punctured": punct.len()}));
+  }
+  rep
+}
